@@ -667,6 +667,22 @@ def held_template_cases():
                     yield {"kind": "history", "aim": "template-object-kept-across-other-renders", "prefix": [first], "history": hist, "probe": probe}
 
 
+def refused_template_histories():
+    """Templates that the environment refuses (nested too deep, malformed, unknown tags - in strict and in tolerant mode, directly and as
+    partials), many times over, and then an ordinary template: what was refused leaves nothing behind in the environment."""
+    deep = lambda n, inner="x": "{% if true %}" * n + inner + "{% endif %}" * n  # noqa: E731
+    refused = [deep(31), deep(40), "{% liquid\n" + "if true\n" * 31 + "echo 'x'\n" + "endif\n" * 31 + "%}", "{% if %}{% endif %}" + deep(31), "{% for x in %}" + deep(33) + "{% endfor %}", "{% nosuch %}" * 5 + deep(31)]
+    probes = [deep(5, "[{{ v }}]"), deep(25, "[{{ v }}]"), deep(29, "[{{ v }}]"), deep(30, "[{{ v }}]"), "{% for i in (1..2) %}" + deep(27, "{{ i }}") + "{% endfor %}", "{% liquid\n" + "if true\n" * 29 + "echo v\n" + "endif\n" * 29 + "%}"]
+    for envc in ({}, {"mode": "lax"}, {"mode": "warn"}, {"extra": True}):
+        for ri, r in enumerate(refused):
+            for n in (1, 6, 40):
+                for pi, pr in enumerate(probes):
+                    if (ri + pi + n) % 3:
+                        continue
+                    hist = [spec(r, {"v": "h"}, envc, (k % 4) == 3) for k in range(n)]
+                    yield {"kind": "history", "aim": "refused-templates-then-an-ordinary-one", "history": hist, "probe": spec(pr, {"v": "you"}, envc, pi % 2 == 1)}
+
+
 def clock_cases():
     fmts = ["%H", "%Y-%m-%d %H:%M", "%H:%M:%S", "<%H>", "%j %H"]
     for word in ("now", "today"):
@@ -688,6 +704,9 @@ def cases(ctx: core.Ctx):
     rng = ctx.rng("cases")
     for gi, c in enumerate(clock_cases()):
         if gi % ctx.nshards == ctx.shard and (ctx.tier != "quick" or gi % 3 == 0):
+            yield c
+    for gi, c in enumerate(refused_template_histories()):
+        if gi % ctx.nshards == ctx.shard and (ctx.tier != "quick" or gi % 2 == 0):
             yield c
     for gi, c in enumerate(held_template_cases()):
         if gi % ctx.nshards == ctx.shard and (ctx.tier != "quick" or gi % 2 == 0):
